@@ -195,6 +195,11 @@ class MultiGetNext(OpUnit):
             inv.append(Or(*[And(Not(ends[i]), interp.eq(r[0], resp[i][0]), interp.eq(r[1], resp[i][1]))
                             for i in range(self.k)]))
         ctx.check(oname("C04", self.target, "ensures", "nothing-invented"), And(*inv))
+        # never mis-attributed: the binding returned at position i is the response's binding at position i. This also
+        # holds in the situations of finding D1 (there the list is cut short, never shifted), so it carries no known pattern
+        ctx.check(oname("C04", self.target, "ensures", "position-i-of-the-result-is-position-i-of-the-response(no-shift)"),
+                  And(len(result) <= self.k,
+                      *[And(interp.eq(r[0], resp[i][0]), interp.eq(r[1], resp[i][1])) for i, r in enumerate(result[:self.k])]))
         return "returns"
 
 
@@ -419,7 +424,7 @@ def units(tier):
         us.append(Get(kr))
         us.append(GetNext(kr))
         us.append(Set(kr))
-    shapes = [(0, 1, 1), (1, 1, 1), (1, 1, 2), (0, 2, 1), (2, 0, 1)]
+    shapes = [(0, 1, 1), (1, 1, 1), (1, 1, 2), (0, 2, 1), (2, 0, 1), (0, 1, 0), (1, 2, 0)]      # (non-repeaters, repeaters, max-repetitions)
     if tier == "thorough":
         shapes += [(0, 2, 2), (1, 2, 2), (0, 3, 1), (2, 1, 2), (0, 1, 3)]
     for ns, nr, m in shapes:
